@@ -104,9 +104,8 @@ SOLVER = {"calls": 0, "faults": 0, "last_fault": None}
 
 def install_solver_guard(bruteforce_max_vars=12, tol=1e-6):
     """Wrap mip.Model.optimize: after every call check the returned point against every row of the
-    model (exactly for pure 0/1 models with rational-valued float coefficients, within `tol` when
-    continuous variables are present) and, for small pure-binary models, check optimality /
-    infeasibility claims by enumeration.  A fault is recorded in SOLVER (the case is then discarded
+    (float) model the solver was given, within `tol`, and, for small pure-binary models, check
+    optimality / infeasibility claims by enumeration.  A fault is recorded in SOLVER (the case is then discarded
     as a solver fault, as the properties prescribe)."""
     import mip
 
@@ -114,15 +113,17 @@ def install_solver_guard(bruteforce_max_vars=12, tol=1e-6):
         return
     orig = mip.Model.optimize
 
-    def row_ok(expr, val, exact):
-        s = Fraction(expr.const) if exact else float(expr.const)
+    def row_ok(expr, val, exact=False):
+        # the solver works on the float model within its own tolerances: a point is valid for the
+        # model it was given when every row holds within `tol`
+        s = float(expr.const)
         for v, c in expr.expr.items():
-            s += (Fraction(c) if exact else float(c)) * val[v.idx]
+            s += float(c) * float(val[v.idx])
         if expr.sense == "<":
-            return s <= (0 if exact else tol)
+            return s <= tol
         if expr.sense == ">":
-            return s >= (0 if exact else -tol)
-        return s == 0 if exact else abs(s) <= tol
+            return s >= -tol
+        return abs(s) <= tol
 
     def guard(self, *a, **k):
         SOLVER["calls"] += 1
@@ -142,12 +143,12 @@ def install_solver_guard(bruteforce_max_vars=12, tol=1e-6):
                         if abs(x - round(x)) > 1e-6:
                             fault = "non-integral " + v.name
                             break
-                        val[v.idx] = Fraction(round(x)) if allbin else float(round(x))
+                        val[v.idx] = float(round(x))
                     else:
                         val[v.idx] = float(x)
                 if fault is None:
                     for c in self.constrs:
-                        if not row_ok(c.expr, val, allbin):
+                        if not row_ok(c.expr, val):
                             fault = "row violated: " + str(c.name)
                             break
                 if fault is None and allbin and len(vars_) <= bruteforce_max_vars and st == mip.OptimizationStatus.OPTIMAL:
@@ -155,17 +156,17 @@ def install_solver_guard(bruteforce_max_vars=12, tol=1e-6):
                     sense_max = self.sense == mip.MAXIMIZE
 
                     def objval(vv):
-                        s = Fraction(obj.const)
+                        s = float(obj.const)
                         for v, c in obj.expr.items():
-                            s += Fraction(c) * vv[v.idx]
+                            s += float(c) * vv[v.idx]
                         return s
                     cur = objval(val)
                     rows = [c.expr for c in self.constrs]
-                    for bits in itertools.product((0, 1), repeat=len(vars_)):
-                        vv = {v.idx: Fraction(b) for v, b in zip(vars_, bits)}
-                        if all(row_ok(r, vv, True) for r in rows):
+                    for bits in itertools.product((0.0, 1.0), repeat=len(vars_)):
+                        vv = {v.idx: b for v, b in zip(vars_, bits)}
+                        if all(row_ok(r, vv) for r in rows):
                             o = objval(vv)
-                            if (sense_max and o > cur) or (not sense_max and o < cur):
+                            if (sense_max and o > cur + 1e-6) or (not sense_max and o < cur - 1e-6):
                                 fault = "sub-optimal answer reported OPTIMAL"
                                 break
                 if fault:
@@ -173,9 +174,9 @@ def install_solver_guard(bruteforce_max_vars=12, tol=1e-6):
                     SOLVER["last_fault"] = fault
             elif st == mip.OptimizationStatus.INFEASIBLE and allbin and len(vars_) <= bruteforce_max_vars:
                 rows = [c.expr for c in self.constrs]
-                for bits in itertools.product((0, 1), repeat=len(vars_)):
-                    vv = {v.idx: Fraction(b) for v, b in zip(vars_, bits)}
-                    if all(row_ok(r, vv, True) for r in rows):
+                for bits in itertools.product((0.0, 1.0), repeat=len(vars_)):
+                    vv = {v.idx: b for v, b in zip(vars_, bits)}
+                    if all(row_ok(r, vv) for r in rows):
                         SOLVER["faults"] += 1
                         SOLVER["last_fault"] = "INFEASIBLE reported for a feasible model"
                         break
